@@ -261,7 +261,20 @@ def run_paths(acc: Acc, real, ref, group: str, aggr_name, seq) -> None:
                 del mine[:1]
                 return float(getattr(fl, which)(type_).defuzzify(agg))
 
-            for name, fn in (("enum", by_enum), ("configure", by_configure), ("iterator", from_iterator), ("caller-list", caller_list)):
+            def int_degrees():
+                # degrees 0 / 1 given as Python ints and as a bool array (crisp activations): the same numbers
+                if not all(d in (0.0, 1.0) for _, d in seq):
+                    return base[1] if base[0] == "value" else base
+                ints = fl.Aggregated("o", 0.0, 1.0, aggr, [fl.Activated(real[n], int(d), None) for n, d in seq])
+                bools = fl.Aggregated("o", 0.0, 1.0, aggr, [fl.Activated(real[n], np.array([bool(d)]), None) for n, d in seq])
+                a = outcome_of(lambda: float(getattr(fl, which)(type_).defuzzify(ints)))
+                b = outcome_of(lambda: float(np.asarray(getattr(fl, which)(type_).defuzzify(bools), dtype=float).ravel()[0]))
+                if a != b and not (a[0] == b[0] == "value" and close(a[1], b[1], 0.0, 0.0)):
+                    return ("unstable", a, b)
+                return a[1] if a[0] == "value" else a
+
+            for name, fn in (("enum", by_enum), ("configure", by_configure), ("iterator", from_iterator), ("caller-list", caller_list),
+                             ("int-degrees", int_degrees)):
                 got = outcome_of(fn)
                 if got[0] == "value" and isinstance(got[1], tuple) and got[1][0] == "raise":
                     got = got[1]
@@ -325,7 +338,7 @@ def run_shard(tier: str, seed: int, shard):
         acc.guard({"group": group, "aggregation": aggr_name, "pair": list(pair), "batch": True},
                   run_batch, acc, real, ref, group, aggr_name, pair)
     # total weights inside (0, atol]: the result is still the weighted average / sum, not NaN
-    tiny_atoms = [(n, d) for n in GROUPS[group][:2] for d in (TINY, TINY / 2)]
+    tiny_atoms = [(n, d) for n in GROUPS[group][:2] for d in (TINY, TINY / 2, 1e-200)]  # (1e-200: products of two degrees underflow)
     for L in (1, 2):
         for seq in itertools.product(tiny_atoms, repeat=L):
             acc.guard({"group": group, "aggregation": aggr_name, "sequence": [list(s) for s in seq]},
